@@ -348,7 +348,7 @@ def _eval(case, parts=('clauses', 'njobs')):
             got = _call(case, fa, bw, loci, 1)
         except Exception as e:
             nb = int(1. / case['gcw']) + 1
-            if o['max_bin'] >= nb and isinstance(e, (KeyError, IndexError)):
+            if o['max_bin'] >= nb and isinstance(e, (KeyError, IndexError)) and str(o['max_bin']) in str(e):
                 out.append(('gc-bin-index-out-of-range',
                             'raised %s(%s): a window has GC bin %d but only int(1/%s)+1 = %d bins exist' % (type(e).__name__, e, o['max_bin'], case['gcw'], nb)))
             else:
@@ -486,11 +486,12 @@ def _directed():
     cases.append(dict(base, name='masks-chroms-other', genome=g, loci=loci[:4], chroms=['chr2']))
     # ---- boundary values that decide eligibility / usability (each is the ONLY way to reach the lower bound) ----
     # the only eligible background has N fraction exactly max_n_perc; the three inputs are N-free tiles 0..2
-    for W_, mn, k in ((50, 0.1, 5), (100, 0.25, 25), (64, 0.5, 32), (200, 0.05, 10), (500, 0.3, 150)):
+    # (0.29 * 100, 0.29 * 200 and 0.41 * 300 are just BELOW 29, 58 and 123 in float arithmetic; 29/100 == 0.29 etc. hold)
+    for W_, mn, k in ((50, 0.1, 5), (100, 0.25, 25), (64, 0.5, 32), (200, 0.05, 10), (500, 0.3, 150), (100, 0.29, 29), (200, 0.29, 58), (300, 0.41, 123)):
         gg = W_ // 10
         g = [['chr1', [[gg, 0]] * 3 + [[gg, k]] * 4 + [[gg, k + 1]] * 3, 0]]
         loci = [['chr1', t * W_ + W_ // 2 - 5, t * W_ + W_ // 2 + 5] for t in range(3)]
-        cases.append(dict(base, name='n-equal-max-needed-W%d' % W_, W=W_, out=W_, max_n=mn, genome=g, loci=loci))
+        cases.append(dict(base, name='n-equal-max-needed-W%d-%s' % (W_, mn), W=W_, out=W_, max_n=mn, genome=g, loci=loci))
     # the only eligible background has summed signal exactly signal_beta * robust minimum (inputs 10/bp, tiles 4..6 5/bp, 7..9 6/bp)
     g = [['chr1', [[10, 0]] * 14, 0]]
     sig = [['chr1', [10] * 4 + [5] * 3 + [6] * 3 + [100] * 4]]
@@ -642,6 +643,9 @@ def _vary(rng, case):
     spec = case['loci_spec']
     spec['p_dup'] = rng.choice([0, 0.2, 0.6])
     spec['p_flush'] = rng.choice([0, 0.1, 0.3])
+    ms = [m for m in range(1, 51) if (m * W) % 100 == 0]
+    if ms and rng.random() < 0.5:                       # a max_n_perc (two decimals) that a whole number of N can hit exactly
+        case['max_n'] = rng.choice(ms + [29] * (29 in ms)) / 100.
     k = case['max_n'] * W
     if abs(k - round(k)) < 1e-9 and 0 < round(k) < W and round(k) / W == case['max_n'] and rng.random() < 0.8:
         frac = rng.choice([0.3, 0.6, 0.9])
